@@ -89,6 +89,21 @@ class Intervals:
         """canonical key of a place for guard matching: root local + projection description"""
         if pl is None:
             return None
+        # a temporary that is a copy of / reference to a field of a value assigned once stands for that field
+        for _ in range(6):
+            n = pl["local"]
+            ds = fn.defs().get(n, [])
+            if len(ds) != 1 or ds[0][0] != "stmt" or ds[0][4]["proj"]:
+                break
+            rv = ds[0][1]
+            src = op_place(rv["op"]) if rv["k"] == "use" else (rv["place"] if rv["k"] == "ref" else None)
+            if src is None or not src["proj"]:
+                break
+            if any(e["k"] not in ("deref", "field", "downcast") for e in src["proj"]):
+                break
+            if len(fn.defs().get(src["local"], [])) != 1:
+                break           # the source may change between the copy and the guard
+            pl = {"local": src["local"], "proj": list(src["proj"]) + list(pl["proj"])}
         desc = []
         for e in pl["proj"]:
             if e["k"] == "deref":
@@ -128,10 +143,10 @@ class Intervals:
         for b, s in self.dominating_edges(fn, block):
             t = fn.blocks[b]["term"]
             dl = op_place(t["discr"])
-            if dl is None or dl["proj"]:
+            if dl is None:
                 continue
-            lty = fn.local_ty(dl["local"])
-            ds0 = fn.whole_defs(dl["local"])
+            lty = self._place_ty(fn, dl)
+            ds0 = fn.whole_defs(dl["local"]) if not dl["proj"] else []
             is_discr = len(ds0) == 1 and ds0[0][0] == "stmt" and ds0[0][1]["k"] == "discr"
             if lty in INT_RANGES and lty != "bool" and not is_discr:
                 # `match n { 0 => .., k => .. }`: a switch on the integer itself
@@ -150,6 +165,8 @@ class Intervals:
                             res.append(("Ne", op_l, kconst(v), True, b))
                 except ValueError:
                     pass
+                continue
+            if dl["proj"]:
                 continue
             ds = fn.whole_defs(dl["local"])
             if len(ds) != 1:
